@@ -153,9 +153,6 @@ Definition f_half : f64 := S754_finite false (2 ^ 52) (-53).
 
 (* ---------------------------------------------------------------- strings *)
 
-Definition utf8_len (c : N) : N :=
-  (if c <? 128 then 1 else if c <? 2048 then 2 else if c <? 65536 then 3 else 4)%N.
-
 Definition radix_digit (radix c : N) : option N :=
   (if (48 <=? c) && (c <=? 57) then (if c - 48 <? radix then Some (c - 48) else None)
    else if (97 <=? c) && (c <=? 122) then (if c - 87 <? radix then Some (c - 87) else None)
@@ -164,20 +161,6 @@ Definition radix_digit (radix c : N) : option N :=
 
 Fixpoint trim_zeros (s : list N) : list N :=
   match s with 48%N :: r => trim_zeros r | _ => s end.
-
-(* split the string at byte offset k: Some (prefix, suffix) when k is a char boundary *)
-Fixpoint split_bytes (s : list N) (k : N) : option (list N * list N) :=
-  if (k =? 0)%N then Some ([], s) else
-  match s with
-  | [] => Some ([], [])
-  | c :: r =>
-      let n := utf8_len c in
-      if (k <? n)%N then None
-      else match split_bytes r (k - n)%N with
-           | Some (a, b) => Some (c :: a, b)
-           | None => None
-           end
-  end.
 
 Fixpoint radix_acc (radix : N) (s : list N) (acc : N) : outcome N err :=
   match s with
@@ -188,30 +171,32 @@ Fixpoint radix_acc (radix : N) (s : list N) (acc : N) : outcome N err :=
               end
   end.
 
-Fixpoint radix_scale (radix : N) (s : list N) (x : f64) : outcome f64 err :=
+(* the digits after the exact window: all must be digits; count them, remember a non-zero one *)
+Fixpoint radix_rest (radix : N) (s : list N) (cnt : nat) (sticky : bool) : outcome (nat * bool) err :=
   match s with
-  | [] => Ok x
+  | [] => Ok (cnt, sticky)
   | c :: r => match radix_digit radix c with
-              | Some _ => radix_scale radix r (f_mul x (f_of_N radix))
+              | Some d => radix_rest radix r (S cnt) (sticky || negb (d =? 0)%N)
               | None => Err EOther
               end
   end.
 
-(* eval/mod.rs parse_num_radix::<RADIX>; [gated] = the final is_finite test is present *)
+Fixpoint radix_scale (k : nat) (radix : N) (x : f64) : f64 :=
+  match k with O => x | S k' => radix_scale k' radix (f_mul x (f_of_N radix)) end.
+
+(* eval/mod.rs parse_num_radix::<RADIX> (as of commits 554b196, 433f204: split by characters,
+   sticky bit for the digits past the exact u128 window); [gated] = the final is_finite test *)
 Definition parse_num_radix (gated : bool) (radix : N) (s : list N) : outcome f64 err :=
   match s with
   | [] => Err EOther
   | _ =>
       let s := trim_zeros s in
-      let maxd := (if radix =? 8 then 42 else 32)%N in
-      let blen := fold_left (fun a c => a + utf8_len c)%N s 0%N in
-      match split_bytes s (N.min blen maxd) with
-      | None => Panic "eval/mod.rs:parse_num_radix:byte slice inside a character"
-      | Some (a, b) =>
-          do n <- radix_acc radix a 0%N;
-          do x <- radix_scale radix b (f_of_N n);
-          if gated then check_finite_overflow x else Ok x
-      end
+      let maxd := (if (radix =? 8)%N then 42 else 32)%nat in
+      do n <- radix_acc radix (firstn maxd s) 0%N;
+      do cs <- radix_rest radix (skipn maxd s) O false;
+      let n' := if snd cs then N.lor n 1 else n in
+      let x := radix_scale (fst cs) radix (f_of_N n') in       (* u128 as f64, then *= RADIX per extra digit *)
+      if gated then check_finite_overflow x else Ok x
   end.
 
 Fixpoint all_digits (s : list N) : bool :=
